@@ -167,10 +167,21 @@ def effsMatch : List Eff → List Eff → Bool
   | a :: as, b :: bs => effMatch a b && effsMatch as bs
   | _, _ => false
 
+/-- who can observe an effect: the peer / transport (0), the local user (1), the ARTIM timer (2) -/
+def Eff.chan : Eff → Nat
+  | .sendUser | .send _ | .sendAbort _ | .sendAbortAny | .close | .connect => 0
+  | .indReceived | .indAbort _ | .indDimse => 1
+  | .tStart | .tRestart | .tStop => 2
+
+/-- effects compared as their observers see them: each observer's effects in order; how the effects of one
+action interleave across observers (an indication and the close of the socket, say) is visible to nobody -/
+def effsMatchByObserver (spec obs : List Eff) : Bool :=
+  [0, 1, 2].all fun c => effsMatch (spec.filter (·.chan == c)) (obs.filter (·.chan == c))
+
 /-- `obsMatch spec observed` -/
 def obsMatch : Obs → Obs → Bool
   | .rejected, .rejected => true
-  | .did es n, .did es' n' => effsMatch es es' && n == n'
+  | .did es n, .did es' n' => effsMatchByObserver es es' && n == n'
   | _, _ => false
 
 end Dicom.UL
